@@ -135,6 +135,10 @@ ACT_DEFECTS = [
       'defined_later': [['source text @[LATER]@']],
       'wrong_type': [['source text @[LMSYM]@']]}),
 ]
+# contents of [act] that the command-line actor rejects: unterminated quotes; more than one command (a complete program
+# followed by a further non-empty line that is not part of it)
+ACT_SYNTAX_VARIANTS = [["'unterminated quote"], ['% atc "unterminated'], ['% atc first-command', '% atc second-command'],
+                       ['% atc arg', 'superfluous second line'], ['$ atc one', '', '# a comment', '$ atc two']]
 ACT_SPECS = [(ai, cls, vi) for ai, (_, _, d) in enumerate(ACT_DEFECTS) for cls in sorted(d) for vi in range(len(d[cls]))]
 
 # the symbol definitions, each followed by a *legal* reference to the symbol: a defective reference inserted later is
@@ -212,8 +216,8 @@ def sweep_specs():
                     for mode in ('normal', 'keep', 'act'):
                         S.append({'cls': cls, 'variant': vi, 'phase': ph, 'pos': pos, 'cmd': mode})
     for mode in ('normal', 'keep', 'act'):
-        S.append({'cls': 'act_syntax', 'variant': 0, 'phase': 'act', 'pos': 'first', 'cmd': mode})
-        S.append({'cls': 'act_syntax', 'variant': 1, 'phase': 'act', 'pos': 'first', 'cmd': mode})
+        for vi in range(len(ACT_SYNTAX_VARIANTS)):
+            S.append({'cls': 'act_syntax', 'variant': vi, 'phase': 'act', 'pos': 'first', 'cmd': mode})
     for step, kind, cls in (('symbols', 'undefined_symbol', 'stub_symbols'), ('pre_sds', 'svh_validation', 'stub_validation')):
         for ph in PHASES + ['act']:
             for pos in ('first', 'middle', 'last'):
@@ -275,7 +279,7 @@ def make_plan(i, master, tier):
             vi = g.randrange(len(SUITE_SHARED))
             spec = {'cls': 'suite_shared_instruction', 'variant': vi, 'phase': g.choice(SUITE_SHARED[vi][3]), 'pos': 'last'}
         elif r < 0.08:
-            spec = {'cls': 'act_syntax', 'variant': g.choice([0, 1]), 'phase': 'act', 'pos': 'first'}
+            spec = {'cls': 'act_syntax', 'variant': g.randrange(len(ACT_SYNTAX_VARIANTS)), 'phase': 'act', 'pos': 'first'}
         elif r < 0.16:
             ai, cls, vi = g.choice(ACT_SPECS)
             spec = {'cls': 'act_defect', 'variant': [ai, cls, vi], 'phase': 'act', 'pos': 'first',
@@ -323,7 +327,7 @@ def build(seed, tier, case, spec, g, sweep):
         items.insert(position(items, lo), {'k': 'real', 'text': text, 'e': 1})
         spec['text'] = text
     elif cls == 'act_syntax':
-        case['act'] = {'lines': [["'unterminated quote", '% atc "unterminated'][spec['variant']]]}
+        case['act'] = {'lines': ACT_SYNTAX_VARIANTS[spec['variant']]}
     elif cls == 'unknown_instruction_in_second_included_file':
         for c in (case, control):
             c['setup'].insert(len(BASE_DEFS), {'k': 'real', 'text': 'including inc-a.xly'})
